@@ -28,13 +28,32 @@ MAGIC = 0xA1A1A1A1
 
 
 def _magic_consts(prog):
-    """CHUNK_MAGIC / MAGIC_DEAD as the code uses them: the value commit
-    publishes and the value reclaim writes - read from the facts"""
+    """the published-chunk marker as the code uses it: the constant the reader compares the marker word with before it takes a
+    chunk, which must also be a value qb_rb_chunk_commit stores - read from the facts"""
+    rd = prog.fn('qb_rb_chunk_read')
+    cands = set()
+    for b in rd.blocks.values():
+        if b.cond is None:
+            continue
+        for lab in (True, False):
+            for a in atoms_of(b.cond, lab):
+                if a.op in ('==', '!=') and a.rc is not None and a.rc not in (0,):
+                    v = unwrap(a.l)
+                    if is_marker_get(v):
+                        cands.add(a.rc & 0xFFFFFFFF)
+                    elif v.get('k') == 'var':
+                        for st in list(rd.events('STORE')) + list(rd.events('DECL')):
+                            rhs = st.rhs if st.kind == 'STORE' else st.d.get('init')
+                            nm = estr(st.lhs) if st.kind == 'STORE' else st.d['var']
+                            if nm == v['n'] and rhs is not None and is_marker_get(unwrap(rhs)):
+                                cands.add(a.rc & 0xFFFFFFFF)
     commit = prog.fn('qb_rb_chunk_commit')
-    vals = [is_marker_set(ev) for ev in commit.events('CALL') if is_marker_set(ev)]
-    if len(vals) != 1 or vals[0]['value'] is None:
-        raise AnalysisBroken('qb_rb_chunk_commit: expected exactly one constant marker store, found %d' % len(vals))
-    return vals[0]['value'] & 0xFFFFFFFF
+    vals = {(is_marker_set(ev)['value'] or 0) & 0xFFFFFFFF for ev in commit.events('CALL') if is_marker_set(ev) and is_marker_set(ev)['value'] is not None}
+    both = cands & vals
+    if len(both) != 1:
+        raise AnalysisBroken('published-chunk marker not identified: qb_rb_chunk_read compares the marker with %s, qb_rb_chunk_commit stores %s' % (
+            sorted(hex(c) for c in cands), sorted(hex(v) for v in vals)))
+    return both.pop()
 
 
 def run(ctx):
